@@ -27,6 +27,7 @@ import (
 	"path/filepath"
 	"strconv"
 	"strings"
+	"sync"
 
 	ct "github.com/google/certificate-transparency-go"
 	"github.com/google/certificate-transparency-go/verifhooks/witnessx"
@@ -433,13 +434,33 @@ func tamper(s *witnessx.CosignedSTH, which, salt int) string {
 // the witness under test and its transports
 
 type sut struct {
-	w       *witnessx.Witness
-	db      *sql.DB
-	dir     string
-	router  *mux.Router
-	useHTTP bool
-	wkey    *keys.Key
-	wv      *witnessx.WitnessVerifier
+	w        *witnessx.Witness
+	db       *sql.DB
+	dir      string
+	router   *mux.Router
+	useHTTP  bool
+	logs     []logID
+	maxConns int
+	wkey     *keys.Key
+	wv       *witnessx.WitnessVerifier
+}
+
+// scratchRoot prefers a memory-backed directory: the database is still a real file with real sqlite
+// file locking, but a commit does not wait for the disk (C19_TMP overrides; "" = os.TempDir()).
+var scratchRoot = sync.OnceValue(findScratchRoot)
+
+func findScratchRoot() string {
+	if d := os.Getenv("C19_TMP"); d != "" {
+		return d
+	}
+	if st, err := os.Stat("/dev/shm"); err == nil && st.IsDir() {
+		if f, err := os.CreateTemp("/dev/shm", "c19-probe-"); err == nil {
+			f.Close()
+			os.Remove(f.Name())
+			return "/dev/shm"
+		}
+	}
+	return ""
 }
 
 func pemPKCS8(k *keys.Key) string {
@@ -449,7 +470,7 @@ func pemPKCS8(k *keys.Key) string {
 // newSUT opens a fresh file-backed sqlite database and builds the witness the way impl.Main does:
 // verifier map keyed by LogIDFromPubKey, optional SetMaxOpenConns(1), server + encoded-path router.
 func newSUT(logs []logID, wkey *keys.Key, maxConns int, useHTTP bool) (*sut, error) {
-	dir, err := os.MkdirTemp("", "c19-")
+	dir, err := os.MkdirTemp(scratchRoot(), "c19-")
 	if err != nil {
 		return nil, err
 	}
@@ -460,40 +481,59 @@ func newSUT(logs []logID, wkey *keys.Key, maxConns int, useHTTP bool) (*sut, err
 			s.close()
 		}
 	}()
-	s.db, err = sql.Open("sqlite3", filepath.Join(dir, "witness.db"))
-	if err != nil {
-		return nil, err
-	}
-	if maxConns > 0 {
-		s.db.SetMaxOpenConns(maxConns)
-	}
-	m := map[string]ct.SignatureVerifier{}
-	for _, l := range logs {
-		id, err := witnessx.LogIDFromPubKey(b64(l.key.SPKI))
-		if err != nil {
-			return nil, err
-		}
-		if id != l.id {
-			return nil, fmt.Errorf("LogIDFromPubKey = %q, harness computed %q", id, l.id)
-		}
-		sv, err := ct.NewSignatureVerifier(l.key.Pub)
-		if err != nil {
-			return nil, err
-		}
-		m[id] = *sv
-	}
-	s.w, err = witnessx.New(witnessx.Opts{DB: s.db, PrivKey: pemPKCS8(wkey), KnownLogs: m})
-	if err != nil {
+	s.logs, s.maxConns = logs, maxConns
+	if err := s.open(); err != nil {
 		return nil, err
 	}
 	s.wv, err = witnessx.NewWitnessVerifier(wkey.Pub)
 	if err != nil {
 		return nil, err
 	}
-	s.router = mux.NewRouter().UseEncodedPath()
-	witnessx.NewServer(s.w).RegisterHandlers(s.router)
 	ok = true
 	return s, nil
+}
+
+// open (re)opens the database file and builds witness, server and router on it.
+func (s *sut) open() error {
+	var err error
+	s.db, err = sql.Open("sqlite3", filepath.Join(s.dir, "witness.db"))
+	if err != nil {
+		return err
+	}
+	if s.maxConns > 0 {
+		s.db.SetMaxOpenConns(s.maxConns)
+	}
+	m := map[string]ct.SignatureVerifier{}
+	for _, l := range s.logs {
+		id, err := witnessx.LogIDFromPubKey(b64(l.key.SPKI))
+		if err != nil {
+			return err
+		}
+		if id != l.id {
+			return fmt.Errorf("LogIDFromPubKey = %q, harness computed %q", id, l.id)
+		}
+		sv, err := ct.NewSignatureVerifier(l.key.Pub)
+		if err != nil {
+			return err
+		}
+		m[id] = *sv
+	}
+	s.w, err = witnessx.New(witnessx.Opts{DB: s.db, PrivKey: pemPKCS8(s.wkey), KnownLogs: m})
+	if err != nil {
+		return err
+	}
+	s.router = mux.NewRouter().UseEncodedPath()
+	witnessx.NewServer(s.w).RegisterHandlers(s.router)
+	return nil
+}
+
+// restart closes the database and brings a new witness up on the same file (process restart).
+func (s *sut) restart() error {
+	if err := s.db.Close(); err != nil {
+		return err
+	}
+	s.db = nil
+	return s.open()
 }
 
 func (s *sut) close() {
@@ -505,18 +545,19 @@ func (s *sut) close() {
 
 // reply is what one call returned: ok = success (nil error / HTTP 200), body = returned bytes.
 type reply struct {
-	ok   bool
-	body []byte
-	note string // error text or HTTP status
+	ok       bool
+	body     []byte
+	note     string // error text or HTTP status
+	conflict bool   // refusal that carries an STH: non-nil bytes next to the error / HTTP 409
 }
 
 func (s *sut) update(id string, sth []byte, proof [][]byte) reply {
 	if !s.useHTTP {
 		b, err := s.w.Update(context.Background(), id, sth, proof)
 		if err != nil {
-			return reply{false, b, err.Error()}
+			return reply{ok: false, body: b, note: err.Error(), conflict: b != nil}
 		}
-		return reply{true, b, ""}
+		return reply{ok: true, body: b}
 	}
 	body, err := json.Marshal(struct {
 		STH   []byte
@@ -532,9 +573,9 @@ func (s *sut) getSTH(id string) reply {
 	if !s.useHTTP {
 		b, err := s.w.GetSTH(id)
 		if err != nil {
-			return reply{false, b, err.Error()}
+			return reply{ok: false, body: b, note: err.Error()}
 		}
-		return reply{true, b, ""}
+		return reply{ok: true, body: b}
 	}
 	return s.do("GET", fmt.Sprintf(witnessx.HTTPGetSTH, url.PathEscape(id)), nil)
 }
@@ -543,7 +584,7 @@ func (s *sut) getLogs() ([]string, reply) {
 	if !s.useHTTP {
 		l, err := s.w.GetLogs()
 		if err != nil {
-			return nil, reply{false, nil, err.Error()}
+			return nil, reply{note: err.Error()}
 		}
 		return l, reply{ok: true}
 	}
@@ -553,7 +594,7 @@ func (s *sut) getLogs() ([]string, reply) {
 	}
 	var l []string
 	if err := json.Unmarshal(r.body, &l); err != nil {
-		return nil, reply{false, r.body, "get-logs body is not a JSON string list: " + err.Error()}
+		return nil, reply{body: r.body, note: "get-logs body is not a JSON string list: " + err.Error()}
 	}
 	return l, r
 }
@@ -562,7 +603,7 @@ func (s *sut) do(method, path string, body []byte) reply {
 	req := httptest.NewRequest(method, "http://witness.test"+path, bytes.NewReader(body))
 	rec := httptest.NewRecorder()
 	s.router.ServeHTTP(rec, req)
-	return reply{rec.Code == http.StatusOK, rec.Body.Bytes(), "HTTP " + strconv.Itoa(rec.Code)}
+	return reply{ok: rec.Code == http.StatusOK, body: rec.Body.Bytes(), note: "HTTP " + strconv.Itoa(rec.Code), conflict: rec.Code == http.StatusConflict}
 }
 
 // checkCosigned judges one cosigned STH returned by the witness against the candidate the oracle
